@@ -20,11 +20,12 @@ pub struct Finding {
 
 fn op_key(v: &Value) -> String {
     format!(
-        "{}/{}/{}/{}",
+        "{}/{}/{}/{}{}",
         v["a"].as_str().unwrap_or("?"),
         v["tp"].as_str().unwrap_or("?"),
         v["seq"].as_i64().unwrap_or(-9),
-        if v["body"].as_bool().unwrap_or(false) { "b" } else { "-" }
+        if v["body"].as_bool().unwrap_or(false) { "b" } else { "-" },
+        if v["prune"].as_bool().unwrap_or(false) { "p" } else { "" }
     )
 }
 
@@ -397,7 +398,7 @@ fn run_behaviour(b: &Value, db: &std::path::Path, kill: bool, prop: &'static str
         .map(|m| m.keys().cloned().collect())
         .unwrap_or_default();
     authors.sort();
-    let mut bodies: BTreeMap<&str, Vec<bool>> = BTreeMap::new();
+    let mut bodies: BTreeMap<&str, Vec<(bool, bool)>> = BTreeMap::new();
     // body flags of remote operations: taken from the TakeImported steps of this behaviour
     for s in steps {
         if s["act"] == "TakeImported" {
@@ -410,9 +411,12 @@ fn run_behaviour(b: &Value, db: &std::path::Path, kill: bool, prop: &'static str
             };
             let v = bodies.entry(name).or_default();
             if v.len() <= seq {
-                v.resize(seq + 1, true);
+                v.resize(seq + 1, (true, false));
             }
-            v[seq] = s["arg"]["op"]["body"].as_bool().unwrap_or(true);
+            v[seq] = (
+                s["arg"]["op"]["body"].as_bool().unwrap_or(true),
+                s["arg"]["op"]["prune"].as_bool().unwrap_or(false),
+            );
         }
     }
     let remote = build_remote_ops(&ids, &bodies);
